@@ -4,22 +4,34 @@ C20 — no public call panics, aborts or hangs; every failure is a returned erro
 In the model the Rust panics that exist are explicit results `Err.panic`: `content_path` on an
 integrity whose first digest is not decodable base64 or shorter than two bytes (`to_hex().unwrap()`
 and the hex slicing), and on an empty integrity.  `NoPanic` says a result is not that.
-* Every operation that takes an integrity argument is panic-free for well-formed arguments
+* Every operation that takes an integrity argument (`readHash`, `existsHash`, `removeHash`,
+  `ropenHash`, `verify`, `extractHash`, `extractUnchecked`) is panic-free for well-formed arguments
   (`contentPath cache sri ≠ none`) — whatever the filesystem holds and whatever the calls answer
-  (so every on-disk state, fault plan and interleaving).
+  (so every on-disk state, fault plan and interleaving).  `clear`, `lopen`, `lopenAuto` are
+  panic-free unconditionally.
 * Writes are panic-free for every key, data, chunking, option combination — including zero-length
   data, declared-size data in several chunks, more or fewer bytes than declared — provided digests
   are at least two bytes long (every real algorithm's are).
-* Index operations (lookup, insert, remove, list) never panic, whatever the bucket files contain.
-* Reads *by key* inherit the integrity from the index record: they are panic-free when that
-  record's integrity is a usable address (`hrec`).  A foreign-written, correctly checksummed record
-  with an undecodable digest makes them panic in the real code too — known finding F13.
+* Index operations (lookup, insert, remove) never panic, whatever the bucket files contain; a
+  listing never contains a `panic` item (`ls_total`, `ls_no_panic`).
+* Operations *by key* (`read`, `ropen`, `extract`, `removeFully`) inherit the integrity from the
+  index record: they answer `panic` exactly when the lookup found an entry whose integrity is not
+  a usable address (`*_panic_only_if`, `read_panic_iff`); in particular never when every record of
+  the key in the bucket carries a usable address (`read_no_panic`).  A foreign-written,
+  correctly checksummed record with an undecodable digest makes them panic in the real code too —
+  known finding F13.
+* `lcommit` has one more `panic` arm (`mkTempLink` answering something that is neither a path nor
+  an error).  No answer of the filesystem model has that form: the arm is unreachable in every
+  healthy run and under every fault plan (`lcommit_no_panic`, `lcommit_no_panic_run`), although
+  `AllCallsR`, which quantifies over all answers, cannot exclude it.
 Termination: every model function is total (structural recursion; Lean accepted them without
 `partial`), so the modelled control flow cannot loop; the Rust loops themselves are exercised
 under the harness watchdog.
 -/
 import Cacache.Lemmas.Commit
 import Cacache.Lemmas.Hex
+import Cacache.Lemmas.Refine
+import Cacache.Lemmas.Audit
 
 namespace Cacache.C20
 open Prog
@@ -52,19 +64,56 @@ theorem remove_no_panic (key : Bytes) : AllCallsR (fun _ => True) NoPanic (delet
   repeat' ac_step
   all_goals np_leaf
 
-/-- Listing never panics, whatever the bucket files hold: records whose integrity does not parse
-are skipped (the pre-repair `unwrap` is gone), errors become items. -/
-theorem ls_total (es : List (Path × Bool)) : AllCalls (fun _ => True) (lsBuckets cfg es) := by
+theorem bucketEntries_no_panic (p : Path) :
+    AllCallsR (fun _ => True) NoPanic (bucketEntries cfg p) := by
+  unfold bucketEntries
+  repeat' ac_step
+  all_goals np_leaf
+
+/-- No item of a listing is the error `panic`. -/
+def NoPanicItems (items : List LsItem) : Prop := ∀ e, LsItem.err e ∈ items → e ≠ .panic
+
+/-- **Listing never reports a panic**, whatever the bucket files hold and whatever the calls
+answer: records whose integrity does not parse are skipped (the pre-repair `unwrap` is gone), and
+the errors that become items are I/O errors.  (A listing returns a plain list of items, not a
+`Res`: it has no panic result of its own by its type.) -/
+theorem ls_total (es : List (Path × Bool)) :
+    AllCallsR (fun _ => True) NoPanicItems (lsBuckets cfg es) := by
   induction es with
-  | nil => unfold lsBuckets; trivial
+  | nil => unfold lsBuckets; intro e he; cases he
   | cons e es ih =>
     obtain ⟨p, d⟩ := e
     cases d
-    · unfold lsBuckets bucketEntries
-      simp only [bind_eq, pure_eq, call, bind_sys, bind_done, allCallsR_sys]
-      refine ⟨trivial, fun r _ => ?_⟩
-      split <;> (simp only [bind_done]; exact AllCallsR.bind ih (fun _ _ => trivial))
+    · unfold lsBuckets
+      simp only [bind_eq, pure_eq]
+      apply AllCallsR.bind (bucketEntries_no_panic cfg p)
+      intro here hh
+      apply AllCallsR.bind ih
+      intro more hm e he
+      rcases List.mem_append.mp he with h | h
+      · cases here with
+        | ok rs =>
+          obtain ⟨c, _, hc⟩ := List.mem_filterMap.mp h
+          split at hc <;> cases hc
+        | error e' =>
+          simp only [List.mem_singleton, LsItem.err.injEq] at h
+          subst h
+          intro hp; exact hh (by rw [hp])
+      · exact hm e h
     · unfold lsBuckets; exact ih
+
+theorem ls_no_panic : AllCallsR (fun _ => True) NoPanicItems (ls cfg cache) := by
+  unfold ls
+  simp only [bind_eq, pure_eq, call, bind_sys, bind_done, allCallsR_sys]
+  refine ⟨trivial, fun r _ => ?_⟩
+  split
+  · exact ls_total cfg _
+  · intro e he
+    simp only [List.mem_singleton, LsItem.err.injEq] at he
+    subst he; intro h; cases h
+  · intro e he
+    simp only [List.mem_singleton, LsItem.err.injEq] at he
+    subst he; intro h; cases h
 
 /-- Operations taking an integrity argument: panic-free for well-formed arguments. -/
 theorem readHash_no_panic (sri : Integrity) (h : contentPath cache sri ≠ none) :
@@ -103,18 +152,333 @@ theorem extractUnchecked_no_panic (how : Extract) (sri : Integrity) (dest : Path
   | some p =>
     cases how <;> (repeat' ac_step) <;> np_leaf
 
-/-- Reads by key: panic-free as soon as the record found carries a usable address. -/
-theorem read_no_panic (key : Bytes)
-    (hrec : ∀ m : Meta, contentPath cache m.sri ≠ none) :
-    AllCallsR (fun _ => True) NoPanic (read cfg cache key) := by
-  unfold read
+/-! ### operations by key: the integrity comes from the index -/
+
+/-- A usable address: the first digest decodes and has at least four hex digits. -/
+theorem contentPath_ne_none_iff (sri : Integrity) :
+    contentPath cache sri ≠ none ↔ ∃ a hex, Sri.toHex sri = some (a, hex) ∧ 4 ≤ hex.length := by
+  unfold contentPath
+  cases h : Sri.toHex sri with
+  | none => simp
+  | some ah =>
+    obtain ⟨a, hex⟩ := ah
+    by_cases hl : hex.length < 4
+    · simp only [hl, if_true, ne_eq, not_true_eq_false, false_iff]
+      rintro ⟨a', hex', he, hl'⟩
+      cases he; omega
+    · simp only [hl, if_false]
+      exact ⟨fun _ => ⟨a, hex, rfl, by omega⟩, fun _ h => by cases h⟩
+
+/-- The shape of every operation by key: a lookup, then a continuation.  If the continuation is
+panic-free for every lookup answer that is not itself a panic and whose entry (if any) carries a
+usable address, then — healthy or under any fault plan — the operation answers `panic` only if
+**the lookup found an entry whose integrity is not a usable address**. -/
+theorem keyed_panic_only_if {α : Type} (key : Bytes) (k : Res (Option Meta) → Prog (Res α))
+    (hk : ∀ fr, fr ≠ .error .panic → (∀ m, fr = .ok (some m) → contentPath cache m.sri ≠ none) →
+      AllCallsR (fun _ => True) NoPanic (k fr))
+    (env : Env) (plan : Nat → Option Fault) (fs : FS) (i : Nat)
+    (h : (runFault env plan (Prog.bind (find cfg cache key) k) fs i).1 = .error .panic) :
+    ∃ m, (runFault env plan (find cfg cache key) fs i).1 = .ok (some m) ∧
+      contentPath cache m.sri = none := by
+  rw [runFault_bind_fst] at h
+  have hf := (find_no_panic cfg cache key).resultFault env plan fs i
+  by_cases hex : ∃ m, (runFault env plan (find cfg cache key) fs i).1 = .ok (some m) ∧
+      contentPath cache m.sri = none
+  · exact hex
+  · exfalso
+    refine (hk _ hf ?_).resultFault env plan _ _ h
+    intro m hm hc
+    exact hex ⟨m, hm, hc⟩
+
+/-- **`read` answers `panic` exactly when the lookup found an entry whose integrity is not a usable
+address** — in the healthy run (`plan := fun _ => none`) and under every fault plan.  (The earlier form of `read_no_panic` assumed "every `Meta` has a usable address", which
+nothing satisfies; `read_no_panic` below now has a hypothesis on the bucket's records.) -/
+theorem read_panic_iff (key : Bytes) (env : Env) (plan : Nat → Option Fault) (fs : FS) (i : Nat) :
+    (runFault env plan (read cfg cache key) fs i).1 = .error .panic ↔
+      ∃ m, (runFault env plan (find cfg cache key) fs i).1 = .ok (some m) ∧
+        contentPath cache m.sri = none := by
+  constructor
+  · intro h
+    unfold read at h
+    simp only [bind_eq, pure_eq] at h
+    refine keyed_panic_only_if cfg cache key _ ?_ env plan fs i h
+    intro fr hfr hm
+    cases fr with
+    | error e => intro h; cases h; exact hfr rfl
+    | ok mo =>
+      cases mo with
+      | none => intro h; cases h
+      | some m => exact readHash_no_panic cfg cache m.sri (hm m rfl)
+  · rintro ⟨m, hm, hc⟩
+    unfold read
+    simp only [bind_eq, pure_eq]
+    rw [runFault_bind_fst, hm]
+    simp only [readHash, hc]
+    rfl
+
+theorem read_panic_only_if (key : Bytes) (env : Env) (plan : Nat → Option Fault) (fs : FS) (i : Nat)
+    (h : (runFault env plan (read cfg cache key) fs i).1 = .error .panic) :
+    ∃ m, (runFault env plan (find cfg cache key) fs i).1 = .ok (some m) ∧
+      contentPath cache m.sri = none :=
+  (read_panic_iff cfg cache key env plan fs i).mp h
+
+/-- The healthy run. -/
+theorem read_panic_iff_run (key : Bytes) (env : Env) (fs : FS) :
+    (run env (read cfg cache key) fs).1 = .error .panic ↔
+      ∃ m, (run env (find cfg cache key) fs).1 = .ok (some m) ∧ contentPath cache m.sri = none := by
+  have := read_panic_iff cfg cache key env (fun _ => none) fs 0
+  rwa [runFault_none, runFault_none] at this
+
+/-- What a lookup can answer when the bucket's bytes are `b`, healthy or under any fault plan: an
+error, "absent", or the lookup in the records of `b`. -/
+theorem find_fault_cases (key : Bytes) (env : Env) (plan : Nat → Option Fault) (fs : FS) (i : Nat)
+    (b : Bytes) (hb : BucketIs fs (bucketPath cfg cache key) b) :
+    (∃ e, (runFault env plan (find cfg cache key) fs i).1 = .error e) ∨
+    (runFault env plan (find cfg cache key) fs i).1 = .ok none ∨
+    (runFault env plan (find cfg cache key) fs i).1 =
+      .ok ((codec cfg).findIn key ((codec cfg).entries b)) := by
+  unfold find bucketEntries
+  simp only [bind_eq, pure_eq, call, bind_sys, bind_done, runFault]
+  split
+  · rename_i f _
+    cases f.e <;> simp [runFault, Codec.findIn]
+  · simp only [exec]
+    rcases hb with hf | ⟨rfl, hn⟩
+    · rw [readFile_of_file (Refine.bucket_ne_nil cfg cache key) hf]
+      exact Or.inr (Or.inr rfl)
+    · rw [Refine.readFile_absent (Refine.bucket_ne_nil cfg cache key) hn]
+      exact Or.inr (Or.inl rfl)
+
+/-- **A satisfiable sufficient condition.**  If every record of the key in the bucket that
+classifies as a live entry carries a usable address (its first digest decodes and has at least
+four hex digits — `contentPath_ne_none_iff`), `read` never answers `panic`: healthy or under any
+fault plan. -/
+theorem read_no_panic (key : Bytes) (fs : FS) (b : Bytes)
+    (hb : BucketIs fs (bucketPath cfg cache key) b)
+    (hrec : ∀ r ∈ (codec cfg).entries b, ∀ m, (codec cfg).key r = key →
+      (codec cfg).cls r = .live m → contentPath cache m.sri ≠ none)
+    (env : Env) (plan : Nat → Option Fault) (i : Nat) :
+    (runFault env plan (read cfg cache key) fs i).1 ≠ .error .panic := by
+  intro h
+  obtain ⟨m, hm, hc⟩ := read_panic_only_if cfg cache key env plan fs i h
+  rcases find_fault_cases cfg cache key env plan fs i b hb with ⟨e, he⟩ | he | he
+  · rw [he] at hm; cases hm
+  · rw [he] at hm; cases hm
+  · rw [he] at hm
+    have hm' : (codec cfg).findIn key ((codec cfg).entries b) = some m := by
+      injection hm
+    obtain ⟨r, hr, hk, hcl⟩ := (codec cfg).findIn_some key _ m hm'
+    exact hrec r hr m hk hcl hc
+
+theorem read_no_panic_run (key : Bytes) (fs : FS) (b : Bytes)
+    (hb : BucketIs fs (bucketPath cfg cache key) b)
+    (hrec : ∀ r ∈ (codec cfg).entries b, ∀ m, (codec cfg).key r = key →
+      (codec cfg).cls r = .live m → contentPath cache m.sri ≠ none)
+    (env : Env) : (run env (read cfg cache key) fs).1 ≠ .error .panic := by
+  have := read_no_panic cfg cache key fs b hb hrec env (fun _ => none) 0
+  rwa [runFault_none] at this
+
+/-- Non-vacuity of `read_no_panic`: a bucket holding the one record a keyed commit of
+`data` appends (integrity computed by the library, digests of at least two bytes, options as
+Rust's types allow them) satisfies its hypothesis, whatever the key and the hash function. -/
+example (key data : Bytes) (a : Algo) (o : WriteOpts) (tm : Nat) (fs : FS)
+    (hH : 2 ≤ (cfg.H a data).length) (ho : o.sri = some (Sri.compute cfg.H a data))
+    (hw : OptsWF key o) (htm : tm ≤ timeMax)
+    (hb : fs.get (bucketPath cfg cache key) = some (.file ((codec cfg).frame (mkRec key o tm))))
+    (env : Env) (plan : Nat → Option Fault) (i : Nat) :
+    (runFault env plan (read cfg cache key) fs i).1 ≠ .error .panic := by
+  refine read_no_panic cfg cache key fs _ (Or.inl hb) ?_ env plan i
+  have he : (codec cfg).entries ((codec cfg).frame (mkRec key o tm)) = [mkRec key o tm] := by
+    have := (codec_laws cfg).entries_append_frame [] (mkRec key o tm) (mkRec_wf key o tm hw htm)
+    have h0 : (codec cfg).entriesT [] = [] := by
+      have hs : (codec cfg).entries [] = (codec cfg).entriesT [] := (codec_laws cfg).settled_nil
+      rw [← hs]; rfl
+    rw [h0] at this
+    simpa using this
+  intro r hr m _ hcl
+  rw [he, List.mem_singleton] at hr
+  subst hr
+  have hs : m.sri = Sri.compute cfg.H a data := by
+    simp only [codec, Rec.codec, Rec.cls, mkRec, ho, Option.map_some, Sri.parse_print_compute] at hcl
+    cases hcl; rfl
+  rw [hs, contentPath_compute]
+  have : ¬ (Bytes.hex (cfg.H a data)).length < 4 := by rw [Bytes.hex_length]; omega
+  simp [this]
+
+/-- The same sufficient condition for every operation by key. -/
+theorem keyed_no_panic_of_bucket {α : Type} (key : Bytes) (k : Res (Option Meta) → Prog (Res α))
+    (hk : ∀ fr, fr ≠ .error .panic → (∀ m, fr = .ok (some m) → contentPath cache m.sri ≠ none) →
+      AllCallsR (fun _ => True) NoPanic (k fr))
+    (fs : FS) (b : Bytes) (hb : BucketIs fs (bucketPath cfg cache key) b)
+    (hrec : ∀ r ∈ (codec cfg).entries b, ∀ m, (codec cfg).key r = key →
+      (codec cfg).cls r = .live m → contentPath cache m.sri ≠ none)
+    (env : Env) (plan : Nat → Option Fault) (i : Nat) :
+    (runFault env plan (Prog.bind (find cfg cache key) k) fs i).1 ≠ .error .panic := by
+  intro h
+  obtain ⟨m, hm, hc⟩ := keyed_panic_only_if cfg cache key k hk env plan fs i h
+  rcases find_fault_cases cfg cache key env plan fs i b hb with ⟨e, he⟩ | he | he
+  · rw [he] at hm; cases hm
+  · rw [he] at hm; cases hm
+  · rw [he] at hm
+    have hm' : (codec cfg).findIn key ((codec cfg).entries b) = some m := by
+      injection hm
+    obtain ⟨r, hr, hk, hcl⟩ := (codec cfg).findIn_some key _ m hm'
+    exact hrec r hr m hk hcl hc
+
+/-! ### the remaining operations -/
+
+theorem existsHash_no_panic (sri : Integrity) (h : contentPath cache sri ≠ none) :
+    AllCallsR (fun _ => True) NoPanic (existsHash cache sri) :=
+  exists_no_panic cache sri h
+
+/-- Opening a reader by address: `content_path` must be usable; the second panic of the Rust
+(`pick_algorithm` on an empty integrity) is then excluded too, an empty integrity having no
+content path. -/
+theorem ropenHash_no_panic (sri : Integrity) (h : contentPath cache sri ≠ none) :
+    AllCallsR (fun _ => True) NoPanic (ropenHash cache sri) := by
+  unfold ropenHash
+  cases hc : contentPath cache sri with
+  | none => exact absurd hc h
+  | some p =>
+    cases sri with
+    | nil => exact absurd rfl h
+    | cons x xs =>
+      simp only [List.isEmpty_cons, Bool.false_eq_true, if_false]
+      repeat' ac_step
+      all_goals np_leaf
+
+theorem verify_no_panic (sri : Integrity) (h : contentPath cache sri ≠ none) :
+    AllCallsR (fun _ => True) NoPanic (verify cfg cache sri) := by
+  unfold verify
   simp only [bind_eq, pure_eq]
-  apply AllCallsR.bind (find_no_panic cfg cache key)
+  apply AllCallsR.bind (ropenHash_no_panic cache sri h)
   intro r hr
   split
   · rename_i e; intro h; cases h; exact hr rfl
+  · split
+    · np_leaf
+    · rename_i e he
+      unfold Reader.check at he
+      split at he
+      · cases he
+      · cases he; np_leaf
+
+theorem extractHash_no_panic (how : Extract) (sri : Integrity) (dest : Path)
+    (h : contentPath cache sri ≠ none) :
+    AllCallsR (fun _ => True) NoPanic (extractHash cfg how cache sri dest) := by
+  unfold extractHash
+  simp only [bind_eq, pure_eq]
+  apply AllCallsR.bind (verify_no_panic cfg cache sri h)
+  intro r hr
+  split
+  · rename_i e; intro h; cases h; exact hr rfl
+  · apply AllCallsR.bind (extractUnchecked_no_panic cache how sri dest h)
+    intro r2 hr2
+    split
+    · rename_i e; intro h; cases h; exact hr2 rfl
+    · np_leaf
+
+/-- `ropen`, `extract` (checked or not, every kind) and `removeFully` answer `panic` only if the
+lookup found an entry whose integrity is not a usable address. -/
+theorem ropen_panic_only_if (key : Bytes) (env : Env) (plan : Nat → Option Fault) (fs : FS) (i : Nat)
+    (h : (runFault env plan (ropen cfg cache key) fs i).1 = .error .panic) :
+    ∃ m, (runFault env plan (find cfg cache key) fs i).1 = .ok (some m) ∧
+      contentPath cache m.sri = none := by
+  unfold ropen at h
+  simp only [bind_eq, pure_eq] at h
+  refine keyed_panic_only_if cfg cache key _ ?_ env plan fs i h
+  intro fr hfr hm
+  cases fr with
+  | error e => intro h; cases h; exact hfr rfl
+  | ok mo =>
+    cases mo with
+    | none => intro h; cases h
+    | some m => exact ropenHash_no_panic cache m.sri (hm m rfl)
+
+theorem extract_panic_only_if (checked : Bool) (how : Extract) (key : Bytes) (dest : Path)
+    (env : Env) (plan : Nat → Option Fault) (fs : FS) (i : Nat)
+    (h : (runFault env plan (extract cfg checked how cache key dest) fs i).1 = .error .panic) :
+    ∃ m, (runFault env plan (find cfg cache key) fs i).1 = .ok (some m) ∧
+      contentPath cache m.sri = none := by
+  unfold extract at h
+  simp only [bind_eq, pure_eq] at h
+  refine keyed_panic_only_if cfg cache key _ ?_ env plan fs i h
+  intro fr hfr hm
+  cases fr with
+  | error e => intro h; cases h; exact hfr rfl
+  | ok mo =>
+    cases mo with
+    | none => intro h; cases h
+    | some m =>
+      cases checked
+      · exact extractUnchecked_no_panic cache how m.sri dest (hm m rfl)
+      · exact extractHash_no_panic cfg cache how m.sri dest (hm m rfl)
+
+/-- The continuation of `removeFully` after the lookup is panic-free when the entry found (if
+any) carries a usable address. -/
+theorem removeFully_panic_only_if (key : Bytes) (env : Env) (plan : Nat → Option Fault) (fs : FS)
+    (i : Nat) (h : (runFault env plan (removeFully cfg cache key) fs i).1 = .error .panic) :
+    ∃ m, (runFault env plan (find cfg cache key) fs i).1 = .ok (some m) ∧
+      contentPath cache m.sri = none := by
+  unfold removeFully at h
+  simp only [bind_eq, pure_eq] at h
+  refine keyed_panic_only_if cfg cache key _ ?_ env plan fs i h
+  intro fr hfr hm
+  cases fr with
+  | error e => intro h; cases h; exact hfr rfl
+  | ok mo =>
+    cases mo with
+    | none =>
+      repeat' ac_step
+      all_goals np_leaf
+    | some m =>
+      dsimp only
+      apply AllCallsR.bind (removeHash_no_panic cache m.sri (hm m rfl))
+      intro r hr
+      split
+      · repeat' ac_step
+        all_goals np_leaf
+      · rename_i e _; intro h; cases h; exact hr rfl
+      · repeat' ac_step
+        all_goals np_leaf
+
+theorem removeEach_no_panic (es : List (Path × Bool)) :
+    AllCallsR (fun _ => True) NoPanic (removeEach es) := by
+  induction es with
+  | nil => unfold removeEach; np_leaf
+  | cons e es ih =>
+    obtain ⟨p, d⟩ := e
+    unfold removeEach
+    simp only [bind_eq, pure_eq, call, bind_sys, bind_done, allCallsR_sys]
+    refine ⟨trivial, fun r _ => ?_⟩
+    split
+    · np_leaf
+    · exact ih
+
+theorem clear_no_panic : AllCallsR (fun _ => True) NoPanic (clear cache) := by
+  unfold clear
+  simp only [bind_eq, pure_eq, call, bind_sys, bind_done, allCallsR_sys]
+  refine ⟨trivial, fun r _ => ?_⟩
+  split
+  · exact removeEach_no_panic _
   · np_leaf
-  · exact readHash_no_panic cfg cache _ (hrec _)
+  · np_leaf
+
+theorem lopen_no_panic (key : Option Bytes) (t : Target) (o : WriteOpts) :
+    AllCallsR (fun _ => True) NoPanic (lopen cache key t o) := by
+  unfold lopen
+  repeat' ac_step
+  all_goals np_leaf
+
+theorem lopenAuto_no_panic (key : Option Bytes) (t : Target) :
+    AllCallsR (fun _ => True) NoPanic (lopenAuto cache key t) := by
+  unfold lopenAuto
+  simp only [bind_eq, pure_eq, call, bind_sys, bind_done, allCallsR_sys]
+  refine ⟨trivial, fun r _ => ?_⟩
+  split
+  · exact lopen_no_panic cache key t _
+  · np_leaf
+  · np_leaf
 
 /-- **Writers never panic**: any options (declared size right, wrong, zero; declared integrity),
 any chunks (several chunks for a declared size, more or fewer bytes than declared, empty chunks,
@@ -176,10 +540,60 @@ where
         · cases h
       · cases h
 
+/-! ### `link_to` commit -/
+
+/-- Break an `AllRets` goal about a `do`-block into one goal per leaf. -/
+syntax "ar_step" : tactic
+macro_rules
+  | `(tactic| ar_step) => `(tactic| first
+      | exact trivial
+      | (refine fun (_ : Ret) _ => ?_)
+      | (simp only [bind_eq, pure_eq, call, bind_sys, bind_done, allRets_sys, allRets_done])
+      | (dsimp only)
+      | split)
+
+/-- **`lcommit` never answers `panic` when every call answers with the constructor the
+filesystem model uses** (`Shaped`: an `Answer`, and for the two temp-name calls a path or an
+error), provided digests have at least two bytes (so that the computed integrity has a content
+path).  The one `panic` arm that survives that hypothesis on the hash — `mkTempLink` answering
+neither a path nor an error — needs an answer no `exec` / injected fault gives. -/
+theorem lcommit_no_panic (l : Linker) (hH : ∀ a d, 2 ≤ (cfg.H a d).length) :
+    AllRets Shaped NoPanic (lcommit cfg l) := by
+  unfold lcommit
+  dsimp only
+  rw [contentPath_compute]
+  have : ¬ (Bytes.hex (cfg.H l.algo l.data)).length < 4 := by
+    rw [Bytes.hex_length]; have := hH l.algo l.data; omega
+  simp only [this, if_false]
+  unfold dropTmp
+  repeat' (first | exact (insert_no_panic cfg _ _ _).shaped | ar_step)
+  all_goals first
+    | exact trivial
+    | (intro h; cases h; done)
+    | (intro h; cases h; rename_i heq; (split at heq <;> (try split at heq) <;> cases heq); done)
+    | (intro h; cases h; rename_i hs _ h1 h2
+       rcases hs.2 with ⟨p, hp⟩ | ⟨e, he⟩
+       · exact h1 _ hp
+       · exact h2 _ he)
+
+/-- … hence in no healthy run and under no fault plan. -/
+theorem lcommit_no_panic_run (l : Linker) (hH : ∀ a d, 2 ≤ (cfg.H a d).length) (env : Env)
+    (plan : Nat → Option Fault) (fs : FS) (i : Nat) :
+    (run env (lcommit cfg l) fs).1 ≠ .error .panic ∧
+      (runFault env plan (lcommit cfg l) fs i).1 ≠ .error .panic :=
+  ⟨(lcommit_no_panic cfg l hH).shaped_run env fs,
+   (lcommit_no_panic cfg l hH).shaped_runFault env plan fs i⟩
+
 /-- The promised consequence for every run: healthy or under any fault plan, no panic result. -/
 theorem no_panic_in_any_run {α : Type} (p : Prog (Res α)) (h : AllCallsR (fun _ => True) NoPanic p)
     (env : Env) (fs : FS) (plan : Nat → Option Fault) :
     (run env p fs).1 ≠ .error .panic ∧ (runFault env plan p fs 0).1 ≠ .error .panic :=
   ⟨h.result env fs, h.resultFault env plan fs 0⟩
+
+/-- The same from the weaker premise "for all answers of the right constructor". -/
+theorem no_panic_in_any_run_shaped {α : Type} (p : Prog (Res α)) (h : AllRets Shaped NoPanic p)
+    (env : Env) (fs : FS) (plan : Nat → Option Fault) :
+    (run env p fs).1 ≠ .error .panic ∧ (runFault env plan p fs 0).1 ≠ .error .panic :=
+  ⟨h.shaped_run env fs, h.shaped_runFault env plan fs 0⟩
 
 end Cacache.C20
